@@ -38,6 +38,8 @@ EXPECT = {
     "seed-C13-j": ["C13"], "seed-C15-j": ["C15"], "seed-C16-j": ["C16", "C05"], "seed-C19-j": ["C19"],
     "seed-C02-k": ["C02"], "seed-C06-k": ["C18"], "seed-C07-k": ["C07"], "seed-C09-k": ["C18"], "seed-C10-k": ["C10"], "seed-C13-k": ["C13"], "seed-C14-k": ["C14"],
     "seed-C17-k": ["C17"], "seed-C18-k": ["C18"], "seed-C19-k": ["C19"],
+    "seed-C01-l": ["C01"], "seed-C02-l": ["C02", "C05"], "seed-C03-l": ["C03"], "seed-C04-l": ["C04"], "seed-C05-l": ["C05", "C03"], "seed-C08-l": ["C08"],
+    "seed-C12-l": ["C12", "C02"], "seed-C13-l": ["C13"], "seed-C16-l": ["C16", "C01"],
 }
 
 
